@@ -86,6 +86,10 @@ SplineIntegral(xs, ys, a, b) ==      \* a <= b, N(xs) >= 2
       left == IF RLt(a, x1) THEN LinInt(RI(ys[1]), DD(xs, ys, 1), RSub(a, x1), RSub(RMin(b, x1), x1)) ELSE RI(0)
       right == IF RLt(xn, b) THEN LinInt(RI(ys[N(xs)]), DD(xs, ys, N(xs)), RSub(RMax(a, xn), xn), RSub(b, xn)) ELSE RI(0)
   IN RAdd(RAdd(left, right), SumPieces(xs, ys, a, b, 1))
+\* integral between any two rationals (antisymmetric), one-node tables are constant
+SignedIntegral(xs, ys, a, b) ==
+  IF N(xs) = 1 THEN RMul(RI(ys[1]), RSub(b, a))
+  ELSE IF RLe(a, b) THEN SplineIntegral(xs, ys, a, b) ELSE RNeg(SplineIntegral(xs, ys, b, a))
 \* ---- the oracle checks itself: interpolation, C1/C2 continuity and natural ends on sample tables ----
 TheoremsOn(xs, ys) ==
   /\ \A i \in 1..N(xs) : Spline(xs, ys, RI(xs[i])) = RI(ys[i]) /\ Linear(xs, ys, RI(xs[i]), TRUE) = RI(ys[i])
